@@ -198,8 +198,17 @@ pub fn decode_dbg<R: BufRead>(dec: Dec, r: R) -> io::Result<String> {
         Dec::HitObjects => format!("{:?}", HitObjects::decode(r)?),
     })
 }
+thread_local! {
+    /// when set, the full decoder is reached through Beatmap's own entry points (`Beatmap::from_bytes`, `str::parse`,
+    /// `Beatmap::from_path`) instead of the generic `rosu_map::from_*` functions
+    pub static INHERENT: std::cell::Cell<bool> = const { std::cell::Cell::new(false) };
+}
+fn inherent() -> bool {
+    INHERENT.with(|i| i.get())
+}
 pub fn from_bytes_fp(dec: Dec, b: &[u8]) -> io::Result<Fp> {
     Ok(match dec {
+        Dec::Beatmap if inherent() => fp(&Beatmap::from_bytes(b)?),
         Dec::Beatmap => fp(&rosu_map::from_bytes::<Beatmap>(b)?),
         Dec::General => fp(&rosu_map::from_bytes::<General>(b)?),
         Dec::Editor => fp(&rosu_map::from_bytes::<Editor>(b)?),
@@ -213,6 +222,7 @@ pub fn from_bytes_fp(dec: Dec, b: &[u8]) -> io::Result<Fp> {
 }
 pub fn from_str_fp(dec: Dec, s: &str) -> io::Result<Fp> {
     Ok(match dec {
+        Dec::Beatmap if inherent() => fp(&s.parse::<Beatmap>()?),
         Dec::Beatmap => fp(&rosu_map::from_str::<Beatmap>(s)?),
         Dec::General => fp(&rosu_map::from_str::<General>(s)?),
         Dec::Editor => fp(&rosu_map::from_str::<Editor>(s)?),
@@ -226,6 +236,7 @@ pub fn from_str_fp(dec: Dec, s: &str) -> io::Result<Fp> {
 }
 pub fn from_path_fp(dec: Dec, p: &std::path::Path) -> io::Result<Fp> {
     Ok(match dec {
+        Dec::Beatmap if inherent() => fp(&Beatmap::from_path(p)?),
         Dec::Beatmap => fp(&rosu_map::from_path::<Beatmap>(p)?),
         Dec::General => fp(&rosu_map::from_path::<General>(p)?),
         Dec::Editor => fp(&rosu_map::from_path::<Editor>(p)?),
